@@ -7,6 +7,7 @@ import (
 	_ "verifharness/sims/calls"
 	_ "verifharness/sims/config"
 	_ "verifharness/sims/defaults"
+	_ "verifharness/sims/isolation"
 	_ "verifharness/sims/term"
 	_ "verifharness/sims/wasifs"
 )
